@@ -812,6 +812,11 @@ type muxRun struct {
 	openRefl []string   // backends on which a reflection stream was still open when the run was over
 }
 
+// (called by concurrent registrar tasks, which only ever run one at a time:
+// go:norace, like every other piece of state the tasks share with the harness,
+// so that it neither reports a race nor orders the tasks)
+//
+//go:norace
 func (mr *muxRun) addTeardown(f func()) { mr.teardown = append(mr.teardown, f) }
 
 // deadBackend: the backend's transport was killed earlier in this run.
@@ -820,9 +825,7 @@ func (mr *muxRun) deadBackend(tag string) bool {
 	if b == nil {
 		return false
 	}
-	b.mu.Lock()
-	defer b.mu.Unlock()
-	return b.dead
+	return b.isDead()
 }
 
 type allDone struct {
